@@ -12,66 +12,7 @@
 -/
 namespace GojaModel.C14
 
-/-! ## Go errors (everything that implements `error` except *Exception) -/
-
-inductive GoErr where
-  | plain (id : Nat)                          -- errors.New
-  | custom (id : Nat)                         -- *CustomErr (errors.As target type)
-  | wrap (id : Nat) (inner : GoErr)           -- fmt.Errorf("%w"):    Unwrap() error
-  | join (id : Nat) (a b : GoErr)             -- errors.Join(a, b):   Unwrap() []error
-  | interrupted (id : Nat)                    -- *InterruptedError, iface not an error       runtime.go:325
-  | interruptedE (id : Nat) (iface : GoErr)   -- *InterruptedError, iface is an error (Unwrap) runtime.go:330
-  | stackOverflow (id : Nat)                  -- *StackOverflowError                          runtime.go:337
-  | runtimeErr (id : Nat)                     -- runtime.Error (is an `error`)
-  deriving DecidableEq, Repr, Inhabited
-
-namespace GoErr
-
-def id : GoErr → Nat
-  | plain i | custom i | wrap i _ | join i _ _ | interrupted i | interruptedE i _ | stackOverflow i | runtimeErr i => i
-
-/-- `_, ok := e.(uncatchableException)` (runtime.go:309): the dynamic type itself carries the marker method. -/
-def isMarker : GoErr → Bool
-  | interrupted _ | interruptedE _ _ | stackOverflow _ => true
-  | _ => false
-
-/-- `errors.Unwrap(e)`: only the `Unwrap() error` form (NOT `Unwrap() []error`). -/
-def unwrap1 : GoErr → Option GoErr
-  | wrap _ inner => some inner
-  | interruptedE _ f => some f
-  | _ => none
-
-/-- isUncatchableException (runtime.go:1412): `for ; e != nil; e = errors.Unwrap(e) { if marker → true }`. -/
-def isUncatchable : GoErr → Bool
-  | wrap _ inner => isUncatchable inner
-  | interrupted _ | interruptedE _ _ | stackOverflow _ => true
-  | _ => false
-
-/-- Spec-level: some error in the whole wrap tree (errors.As semantics, joins included) is uncatchable. -/
-def containsUncatchable : GoErr → Bool
-  | wrap _ inner => containsUncatchable inner
-  | join _ a b => containsUncatchable a || containsUncatchable b
-  | interrupted _ | interruptedE _ _ | stackOverflow _ => true
-  | _ => false
-
-/-- `errors.Is(e, target)` with target identified by id (pointer identity; no custom Is methods in scope). -/
-def errIs : GoErr → Nat → Bool
-  | wrap i inner, t => i == t || errIs inner t
-  | join i a b, t => i == t || errIs a t || errIs b t
-  | interruptedE i f, t => i == t || errIs f t
-  | plain i, t | custom i, t | interrupted i, t | stackOverflow i, t | runtimeErr i, t => i == t
-
-/-- `errors.As(e, &*CustomErr)`: id of the first *CustomErr in depth-first order. -/
-def errAs : GoErr → Option Nat
-  | custom i => some i
-  | wrap _ inner => errAs inner
-  | join _ a b => match errAs a with | some c => some c | none => errAs b
-  | interruptedE _ f => errAs f
-  | _ => none
-
-end GoErr
-
-/-! ## JS values, exceptions, panic payloads -/
+/-! ## Small enumerations used by both Go errors and JS values -/
 
 inductive ErrClass where
   | error | typeError | referenceError | rangeError | syntaxError | myErr
@@ -85,9 +26,101 @@ inductive StackTop where
   | other                   -- native frame, creation site of an Error object, any other JS site
   deriving DecidableEq, Repr, Inhabited
 
+/-- A JS value minus the Go error it may hold in `.value` (so that a Go error can wrap an *Exception without a
+mutual inductive type: `GoErr.wrapExc*` store the key and, separately, the inner Go error). -/
+inductive JsKey where
+  | prim (id : Nat)
+  | obj (id : Nat)
+  | objU (id : Nat)                       -- object whose ToString throws / has no primitive conversion
+  | errObj (id : Nat) (cls : ErrClass)
+  | goError (id : Nat)
+  | valObj (id : Nat)
+  | freshErr (cls : ErrClass) (st : StackTop)
+  | freshGoError
+  deriving DecidableEq, Repr, Inhabited
+
+/-- `getGoError().self.hasInstance(obj)` (runtime.go Exception.Unwrap). -/
+def JsKey.isGoErrorInstance : JsKey → Bool
+  | .goError _ | .freshGoError => true
+  | _ => false
+
+/-! ## Go errors (everything that implements `error` except *Exception) -/
+
+inductive GoErr where
+  | plain (id : Nat)                          -- errors.New
+  | custom (id : Nat)                         -- *CustomErr (errors.As target type)
+  | wrap (id : Nat) (inner : GoErr)           -- fmt.Errorf("%w"):    Unwrap() error
+  | join (id : Nat) (a b : GoErr)             -- errors.Join(a, b):   Unwrap() []error
+  | interrupted (id : Nat)                    -- *InterruptedError, iface not an error       runtime.go:325
+  | interruptedE (id : Nat) (iface : GoErr)   -- *InterruptedError, iface is an error (Unwrap) runtime.go:330
+  | stackOverflow (id : Nat)                  -- *StackOverflowError                          runtime.go:337
+  | runtimeErr (id : Nat)                     -- runtime.Error (is an `error`)
+  | wrapExc (id : Nat) (k : JsKey) (top : StackTop)                    -- fmt.Errorf("%w", ex): *Exception whose value holds no Go error
+  | wrapExcGo (id : Nat) (k : JsKey) (top : StackTop) (inner : GoErr)  -- … whose value holds the Go error `inner` in `.value`
+  deriving DecidableEq, Repr, Inhabited
+
+namespace GoErr
+
+def id : GoErr → Nat
+  | plain i | custom i | wrap i _ | join i _ _ | interrupted i | interruptedE i _ | stackOverflow i | runtimeErr i
+  | wrapExc i _ _ | wrapExcGo i _ _ _ => i
+
+/-- `_, ok := e.(uncatchableException)` (runtime.go:309): the dynamic type itself carries the marker method. -/
+def isMarker : GoErr → Bool
+  | interrupted _ | interruptedE _ _ | stackOverflow _ => true
+  | _ => false
+
+/-- The classifier BEFORE fix cbcbe34 (`for ; e != nil; e = errors.Unwrap(e)`): errors.Unwrap follows only
+`Unwrap() error`, never `Unwrap() []error`.  Kept for the regression lemma `…_prefix_witness` in Props. -/
+def isUncatchableUnwrapLoop : GoErr → Bool
+  | wrap _ inner => isUncatchableUnwrapLoop inner
+  | wrapExcGo _ k _ inner => k.isGoErrorInstance && isUncatchableUnwrapLoop inner
+  | interrupted _ | interruptedE _ _ | stackOverflow _ => true
+  | _ => false
+
+/-- isUncatchableException (runtime.go): `var u uncatchableException; return errors.As(e, &u)` — errors.As walks
+the whole wrap tree: the error itself, `Unwrap() error`, and every branch of `Unwrap() []error`. -/
+def isUncatchable : GoErr → Bool
+  | wrap _ inner => isUncatchable inner
+  | join _ a b => isUncatchable a || isUncatchable b
+  | wrapExcGo _ k _ inner => k.isGoErrorInstance && isUncatchable inner     -- through Exception.Unwrap
+  | interrupted _ | interruptedE _ _ | stackOverflow _ => true
+  | _ => false
+
+/-- Spec-level: some error in the whole wrap tree (errors.As semantics, joins included) is uncatchable. -/
+def containsUncatchable : GoErr → Bool
+  | wrap _ inner => containsUncatchable inner
+  | join _ a b => containsUncatchable a || containsUncatchable b
+  | wrapExcGo _ k _ inner => k.isGoErrorInstance && containsUncatchable inner
+  | interrupted _ | interruptedE _ _ | stackOverflow _ => true
+  | _ => false
+
+/-- `errors.Is(e, target)` with target identified by id (pointer identity; no custom Is methods in scope). -/
+def errIs : GoErr → Nat → Bool
+  | wrap i inner, t => i == t || errIs inner t
+  | join i a b, t => i == t || errIs a t || errIs b t
+  | interruptedE i f, t => i == t || errIs f t
+  | wrapExcGo i k _ inner, t => i == t || (k.isGoErrorInstance && errIs inner t)
+  | wrapExc i _ _, t => i == t
+  | plain i, t | custom i, t | interrupted i, t | stackOverflow i, t | runtimeErr i, t => i == t
+
+/-- `errors.As(e, &*CustomErr)`: id of the first *CustomErr in depth-first order. -/
+def errAs : GoErr → Option Nat
+  | custom i => some i
+  | wrap _ inner => errAs inner
+  | join _ a b => match errAs a with | some c => some c | none => errAs b
+  | interruptedE _ f => errAs f
+  | wrapExcGo _ k _ inner => if k.isGoErrorInstance then errAs inner else none
+  | _ => none
+
+end GoErr
+
+/-! ## JS values, exceptions, panic payloads -/
+
 inductive JsVal where
   | prim (id : Nat)
   | obj (id : Nat)                        -- ordinary object without a `value` property
+  | objU (id : Nat)                       -- ordinary object whose conversion to a string throws (toString throws / no primitive)
   | errObj (id : Nat) (cls : ErrClass)    -- errorObject created by script (`new Error`): own stack = creation site
   | goError (id : Nat) (e : GoErr)        -- GoError made by the host with r.NewGoError(e) while the vm is idle: own stack empty
   | valObj (id : Nat) (e : GoErr)         -- ordinary object with own property value = ToValue(e)
@@ -110,9 +143,24 @@ def goErrValue : JsVal → Option GoErr
   | goError _ e | valObj _ e | freshGoError e => some e
   | _ => none
 
+def key : JsVal → JsKey
+  | prim i => .prim i | obj i => .obj i | objU i => .objU i | errObj i c => .errObj i c
+  | goError i _ => .goError i | valObj i _ => .valObj i | freshErr c st => .freshErr c st | freshGoError _ => .freshGoError
+
 /-- `getGoError().self.hasInstance(obj)` (runtime.go:414). -/
-def isGoErrorInstance : JsVal → Bool
-  | goError _ _ | freshGoError _ => true
+def isGoErrorInstance (v : JsVal) : Bool := v.key.isGoErrorInstance
+
+/-- Rebuild the value from its key and the Go error held in `.value`. -/
+def ofKey : JsKey → Option GoErr → JsVal
+  | .prim i, _ => prim i | .obj i, _ => obj i | .objU i, _ => objU i | .errObj i c, _ => errObj i c
+  | .goError i, some e => goError i e | .goError i, none => obj i
+  | .valObj i, some e => valObj i e | .valObj i, none => obj i
+  | .freshErr c st, _ => freshErr c st
+  | .freshGoError, some e => freshGoError e | .freshGoError, none => obj 0
+
+/-- `val.String()` panics (script `toString` throws, or the object has no primitive conversion). -/
+def unstringifiable : JsVal → Bool
+  | objU _ => true
   | _ => false
 
 end JsVal
@@ -126,6 +174,11 @@ structure Exc where
 /-- Exception.Unwrap (runtime.go:412). -/
 def Exc.unwrap (ex : Exc) : Option GoErr :=
   if ex.val.isGoErrorInstance then ex.val.goErrValue else none
+
+/-- Exception.Error() / String() (runtime.go:383,396) call `e.val.String()` with no recover: for a thrown object
+whose string conversion throws, the Go panic leaves the `Error()` method (known finding C14
+`error-method-panics-on-unstringifiable-value`). -/
+def Exc.errorPanics (ex : Exc) : Bool := ex.val.unstringifiable
 
 inductive Sentinel where
   | typeE | refE | rangeE | syntaxE       -- typeError / referenceError / rangeError / syntaxError string types
@@ -301,6 +354,14 @@ def wrapReflectErr : Option ErrVal → Flow
     if e.isUncatchable then .panic (.goErr e) .other            -- isUncatchableException(err) → panic(err)
     else .panic (.val (.freshGoError e)) .other                 -- panic(r.NewGoError(err))
 
+/-- `fmt.Errorf("rfw: %w", err)` in a native frame. -/
+def wrapErr : ErrVal → GoErr
+  | .go e => .wrap 0 e
+  | .exc ex =>
+    match ex.val.goErrValue with
+    | some i => .wrapExcGo 0 ex.val.key ex.top i
+    | none => .wrapExc 0 ex.val.key ex.top
+
 /-- wrapJSFunc for a func type whose last result is `error` (runtime.go:2251..2297). -/
 def wrapJSFuncE : CallRes → CallRes
   | .ok => .ok
@@ -321,6 +382,20 @@ def wrapJSFuncN : CallRes → Flow
 def panicErr : CallRes → Flow
   | .ok => .normal
   | .err ev => .panic ev.toPv .other
+  | .panic x o => .panic x o
+
+/-- The idiom `if ex, ok := err.(*Exception); ok { panic(ex.Value()) }; panic(err)`: the value is re-thrown, the
+*Exception (and its stack) is dropped. -/
+def panicValue : CallRes → Flow
+  | .ok => .normal
+  | .err (.exc ex) => .panic (.val ex.val) .other
+  | .err (.go e) => .panic (.goErr e) .other
+  | .panic x o => .panic x o
+
+/-- The idiom `return nil, fmt.Errorf("…: %w", err)` through a reflect-wrapped func with an error result. -/
+def returnWrapped : CallRes → Flow
+  | .ok => wrapReflectErr none
+  | .err ev => wrapReflectErr (some (.go (wrapErr ev)))
   | .panic x o => .panic x o
 
 /-- A native frame that returns the Callable's error through a reflect-wrapped func with an error result. -/
@@ -345,21 +420,37 @@ end JsKind
 inductive Frame where
   | js (k : JsKind)
   | fc | rfe | rfn | ct | xfe | xfn | px | gt | fo | dy | rp
-  | pr
+  | fcv          -- native FunctionCall re-raising with panic(ex.Value())
+  | rfw          -- reflect func returning fmt.Errorf("%w", err)
+  | ji           -- JS `for (x of it) next()` over an iterator that has a return() method
+  | jg | jgf     -- generator body (resumed after a yield) calling next; jgf: inside try/finally
+  | ja           -- async function calling next in its synchronous part
+  | pr           -- Promise.resolve().then(next): the rest runs as a promise job
+  | jaw          -- async function: `await null; next()`: the rest runs as a promise job
   deriving DecidableEq, Repr, Inhabited
 
 namespace Frame
 /-- Is the function object that represents this frame a JS function (true) or a native one (false)? -/
 def isJS : Frame → Bool
-  | js _ | ct | px | dy | pr => true          -- ct / px / dy / pr are entered through a JS shim
+  | js _ | ct | px | dy | pr | ji | jg | jgf | ja | jaw => true     -- ct / px / dy / pr are entered through a JS shim
   | _ => false
-def swallows : Frame → Bool | js k => k.swallows | _ => false
+/-- The frame ends the propagation of a JS exception: a catch without rethrow, or an async function (its promise
+is rejected with the value instead). -/
+def swallows : Frame → Bool | js k => k.swallows | ja => true | _ => false
 def unwraps : Frame → Bool | xfe => true | _ => false
-def rethrows : Frame → Bool | js k => k.rethrows | _ => false
+/-- The frame replaces the *Exception (new stack) while keeping the value. -/
+def rethrows : Frame → Bool | js k => k.rethrows | fcv => true | _ => false
+/-- The frame replaces the value by a GoError around a Go error that wraps the *Exception. -/
+def rewraps : Frame → Bool | rfw => true | _ => false
+/-- The rest of the chain runs later, as a promise job. -/
+def isSplit : Frame → Bool | pr | jaw => true | _ => false
 end Frame
 
 inductive LogKind where
-  | caught (v : JsVal) | fin
+  | caught (v : JsVal)        -- a catch block ran and received v
+  | fin                       -- a finally block ran
+  | iterReturn                -- the return() method of an open iterator ran (iterator close during unwinding)
+  | asyncReject (v : JsVal)   -- the promise of an async function was rejected with v (seen by the rejection tracker)
   deriving DecidableEq, Repr
 
 structure LogE where
@@ -413,7 +504,26 @@ def applyFrame (idx : Nat) (f : Frame) (cjs : Bool) (fl : Flow) : Flow × List L
       | .panic x o => .panic x o, [])
   | .dy => (shim (panicErr (callable cjs fl)), [])                       -- DynamicObject.Get
   | .rp => (panicErr (runProgram fl), [])                                -- nested RunProgram("__c<i>()")
-  | .pr => (fl, [])                                                      -- never applied (segments are split at pr)
+  | .fcv => (panicValue (callable cjs fl), [])                            -- panic(ex.Value())
+  | .rfw => (returnWrapped (callable cjs fl), [])                         -- return fmt.Errorf("%w", err)
+  | .ji =>                                                               -- handleThrow → _restoreStacks(…, ex != nil) (vm.go)
+    (match fl with
+      | .normal => (.normal, [])                                         -- iterator exhausted: no return()
+      | .panic x o =>
+        match handleThrow o x [.marker] with
+        | .returned e _ => (.panic (.exc e) o, [⟨idx, .iterReturn⟩])      -- closeIters = true: return() runs
+        | _ => (.panic x o, []))                                         -- ex == nil: iterators are dropped, not closed
+  | .jg => (jsCall fl, [])                                               -- generator.enterNext marker + generatorObject.step panic(ex)
+  | .jgf => ((jsCall (jsFrame idx .jf fl).1), (jsFrame idx .jf fl).2)
+  | .ja =>                                                               -- asyncRunner.start/step: ex → promiseCap.reject(ex.val)
+    (match fl with
+      | .normal => (.normal, [])
+      | .panic x o =>
+        match handleThrow o x [.marker] with
+        | .returned e _ => (.normal, [⟨idx, .asyncReject e.val⟩])
+        | _ => (.panic x o, []))
+  | .pr => (fl, [])                                                      -- never applied (segments are split at pr / jaw)
+  | .jaw => (fl, [])
 
 /-! ## Payloads (the innermost function) -/
 
@@ -459,11 +569,11 @@ def indexed : Nat → List Frame → List (Nat × Frame)
   | _, [] => []
   | i, f :: fs => (i, f) :: indexed (i + 1) fs
 
-/-- Split an indexed chain at the `pr` shims: the first segment runs synchronously, every later one as a promise job. -/
+/-- Split an indexed chain at the `pr` / `jaw` frames: the first segment runs synchronously, every later one as a promise job. -/
 def splitSegs : List (Nat × Frame) → Seg × List Seg
   | [] => ([], [])
-  | (_, .pr) :: rest => let r := splitSegs rest; ([], r.1 :: r.2)
-  | f :: rest => let r := splitSegs rest; (f :: r.1, r.2)
+  | f :: rest => if f.2.isSplit then ([], (splitSegs rest).1 :: (splitSegs rest).2)
+                 else (f :: (splitSegs rest).1, (splitSegs rest).2)
 
 def headIsJS : Seg → Bool → Bool
   | [], inner => inner
@@ -576,6 +686,25 @@ def ErrVal.errIs : ErrVal → Nat → Bool
 def ErrVal.errAs : ErrVal → Option Nat
   | .go e => e.errAs
   | .exc ex => match ex.unwrap with | some e => e.errAs | none => none
+
+/-- Values of the *Exceptions met while walking `errors.Unwrap` from a Go error (what a host loop
+`for e := err; e != nil; e = errors.Unwrap(e) { if ex, ok := e.(*Exception) … }` sees). -/
+def GoErr.excVals : GoErr → List JsVal
+  | .wrap _ i => excVals i
+  | .interruptedE _ f => excVals f
+  | .wrapExc _ k _ => [JsVal.ofKey k none]
+  | .wrapExcGo _ k _ i => JsVal.ofKey k (some i) :: (if k.isGoErrorInstance then excVals i else [])
+  | _ => []
+
+def ErrVal.excVals : ErrVal → List JsVal
+  | .go e => e.excVals
+  | .exc ex => ex.val :: (match ex.unwrap with | some e => e.excVals | none => [])
+
+/-- Does calling `.Error()` on the host's error panic? (only an *Exception's own Error() stringifies a JS value; a
+fmt.Errorf wrapper computed its text when it was made, with fmt's own panic guard). -/
+def ErrVal.errorPanics : ErrVal → Bool
+  | .go _ => false
+  | .exc ex => ex.errorPanics
 
 /-- The Go error the host reaches with errors.Unwrap / Is / As from the error it was handed. -/
 def ErrVal.carried : ErrVal → Option GoErr
